@@ -2,6 +2,7 @@ package lint
 
 import (
 	"fmt"
+	"go/token"
 	"go/types"
 	"strings"
 
@@ -419,6 +420,72 @@ func runC12(c *Ctx) {
 	c.Rule("R12.6", "E3", "a watch resumed from a bookmark by the gRPC client is the same watch: every field of the initial request (ID and label queries, aggregation, API version) is carried over, only bootstrap/tail/bookmark differ — interrupted + resumed equals uninterrupted", 4)
 	resumeRequestRule(c, "R12.6")
 
+	// ---------- R12.8 a rewritten event keeps its bookmark
+	c.Rule("R12.8", "E3", "inmem watch filters: an event handed over by reference (*state.Event) is never overwritten as a whole by a value that does not carry a bookmark — a selector watch that turns an Updated event into Created/Destroyed still delivers the ring position, otherwise the client resumes from nil (a plain live watch) and the stream has a gap", 1)
+
+	{
+		nFilters, bad := 0, ""
+
+		var badPos token.Pos
+
+		for _, f := range p.PkgFuncs(pkgInmem) {
+			takesEvent := false
+
+			for _, v := range append(append([]ssa.Value{}, paramsOf(f)...), freeVarsOf(f)...) {
+				if pt, ok := v.Type().Underlying().(*types.Pointer); ok && isStateEvent(pt.Elem()) {
+					takesEvent = true
+				}
+			}
+
+			if !takesEvent {
+				continue
+			}
+
+			nFilters++
+
+			for _, in := range Find(f, func(in ssa.Instruction) bool {
+				st, ok := in.(*ssa.Store)
+				if !ok || !isStateEvent(st.Val.Type()) {
+					return false
+				}
+
+				_, local := st.Addr.(*ssa.Alloc)
+
+				return !local
+			}) {
+				st := in.(*ssa.Store)
+
+				// the stored value: a load of a composite-literal temporary must have had its Bookmark field written;
+				// a copy of another event (load through a non-local address) carries that event's bookmark
+				if ld, ok := st.Val.(*ssa.UnOp); ok {
+					if al, ok := ld.X.(*ssa.Alloc); ok {
+						has := false
+
+						for _, r := range *al.Referrers() {
+							if fa, ok := r.(*ssa.FieldAddr); ok {
+								if _, fn := FieldOf(fa.X, fa.Field); fn == "Bookmark" {
+									has = true
+								}
+							}
+						}
+
+						if !has {
+							bad, badPos = FuncName(f)+": the event is replaced by a literal without Bookmark", st.Pos()
+						}
+					}
+				} else {
+					bad, badPos = FuncName(f)+": the event is replaced by a computed value ("+p.Desc(st.Val)+")", st.Pos()
+				}
+			}
+		}
+
+		if nFilters == 0 {
+			c.Unknown("R12.8", pkgInmem+" :: by-reference events keep their bookmark", token.NoPos, "anchor-unresolved: no function taking *state.Event found")
+		} else {
+			c.Check(bad == "", "R12.8", pkgInmem+" :: by-reference events keep their bookmark", badPos, fmt.Sprintf("%d functions taking *state.Event examined", nFilters), bad)
+		}
+	}
+
 	// ---------- R12.7 the tail walk ends by its own guard only
 	c.Rule("R12.7", "E1", "single-resource tail: the backwards walk over the ring is left only through its own condition (retention floor reached, or the requested number of events found) — no early exit from the body, so exactly the last N retained events of the resource are replayed", 1)
 
@@ -527,4 +594,28 @@ func loopsContaining(f *ssa.Function, b *ssa.BasicBlock) []map[*ssa.BasicBlock]b
 	}
 
 	return out
+}
+
+func paramsOf(f *ssa.Function) []ssa.Value {
+	var out []ssa.Value
+	for _, x := range f.Params {
+		out = append(out, x)
+	}
+
+	return out
+}
+
+func freeVarsOf(f *ssa.Function) []ssa.Value {
+	var out []ssa.Value
+	for _, x := range f.FreeVars {
+		out = append(out, x)
+	}
+
+	return out
+}
+
+func isStateEvent(t types.Type) bool {
+	n, ok := types.Unalias(t).(*types.Named)
+
+	return ok && n.Obj().Name() == "Event" && n.Obj().Pkg() != nil && strings.HasSuffix(n.Obj().Pkg().Path(), "pkg/state")
 }
